@@ -731,3 +731,14 @@ Proof.
   destruct (process svc h true etext frame) as [err' evs]. cbn [fst snd] in *. subst err'. rewrite H3.
   destruct err; reflexivity.
 Qed.
+
+(** * every cutting by sizes is a cutting *)
+Lemma split_sizes_concat sizes : forall b, concat (split_sizes sizes b) = b.
+Proof.
+  induction sizes as [|n r IH]; intros b; cbn [split_sizes].
+  - destruct b; cbn [concat]; rewrite ?app_nil_r; reflexivity.
+  - cbn [concat]. rewrite IH. apply firstn_skipn.
+Qed.
+
+Lemma split_sizes_ok sizes : chunk_ok (split_sizes sizes).
+Proof. intros b. apply split_sizes_concat. Qed.
